@@ -39,6 +39,10 @@ theorem C13.keyword_table :
     Gen.everySingular = [("year", "YEARS"), ("quarter", "QUARTERS"), ("month", "MONTHS"), ("week", "WEEKS"), ("day", "DAYS")] :=
   ⟨rfl, rfl, rfl⟩
 
+/-- The period parser refuses `every 0 <quantum>` (the repair of the zero-length hang, DESIGN 9-3):
+    a regression of that check in times.cc breaks this obligation. -/
+theorem C13.zero_rejected : Gen.everyRejectsZero = true := rfl
+
 /-- Every keyword of the regenerated table resolves to a duration of positive length. -/
 theorem C13.keywords_positive :
     ∀ e ∈ Gen.periodKeywords, ∃ d, keywordDuration? e.1 = some d ∧ d.quantum.name = e.2.1 ∧ d.length = e.2.2 ∧ 0 < d.length := by
